@@ -155,6 +155,8 @@ def plan(tier, seed):
     for i in range(nshard):
         shards.append(dict(kind='walk', seed=seed * 1000 + i, n=n // nshard, length=length, cfg=list(CFGS)[i % 3],
                            peer_hold=PEER_HOLDS[i % len(PEER_HOLDS)], defer=bool(i % 2)))
+        shards.append(dict(kind='walk', seed=seed * 1000 + 500 + i, n=n // nshard, length=length, cfg=list(CFGS)[i % 3],
+                           peer_hold=PEER_HOLDS[i % len(PEER_HOLDS)], defer=bool(i % 2), fuzz=150 if tier == 'quick' else 1500))
     return shards
 
 
@@ -188,8 +190,12 @@ def run_shard(sh):
             res['samples'] = [dict(cfg=sh['cfg'], prefix=list(s), peer_hold=sh['peer_hold']) for s in list(ex.seen.values())[-2:]]
     else:
         rng = random.Random(sh['seed'])
+        alpha = S.ALPHABET_C01
+        if sh.get('fuzz'):
+            # hostile well-framed messages (mutated unit-test corpus) among the peer's messages: whatever they do, the session heals
+            alpha = ['OPEN', 'KA', 'OPEN_h9', 'OPEN_h0', 'NOTI_CEASE', 'BADLEN', 'UPD1'] + S.fuzz_alphabet(rng, sh['fuzz'])
         for i in range(sh['n']):
-            r = S.random_walk(cfg, [OpMonitor], S.ALPHABET_C01, rng, rng.randint(20, sh['length']), multi=False,
+            r = S.random_walk(cfg, [OpMonitor], alpha, rng, rng.randint(20, sh['length']), multi=False,
                               weights={'TICK': 5, 'ACCEPT': 4, 'REFUSE': 2, 'STOP': 0.3, 'START': 1.5, 'OPEN': 3, 'KA': 3,
                                        'OPEN_h1': 2, 'OPEN_h0': 2, 'OPEN_h2': 2, 'NOTI_VER': 2, 'PEERRESET': 2})
             if r.monitors[0].stopped:
@@ -228,6 +234,7 @@ def floors(m, tier):
 
 
 def replay(rep):
+    S.register_fuzz(rep.get('fuzz'))
     r = S.run_seq(rep['cfg'], rep['events'], [OpMonitor])
     cfgname = [k for k, v in CFGS.items() if v == rep['cfg'].get('time_opts')]
     stats = dict(continued=0, stable=0, opens_compared=0, max_recovery=0.0, by_state={}, by_fault={}, second_faults=0, late_closes=0)
